@@ -96,7 +96,19 @@ impl RServer {
 
 /// Binds a listener (port 0 = ephemeral) and serves connections until aborted.
 pub async fn start(port: u16) -> std::io::Result<(Arc<RServer>, u16, tokio::task::JoinHandle<()>)> {
-    let listener = TcpListener::bind(("127.0.0.1", port)).await?;
+    // a specific port is either free or not; an ephemeral one may be unavailable for a while after a burst of
+    // loopback traffic (TIME_WAIT): wait for it instead of failing
+    let mut listener = TcpListener::bind(("127.0.0.1", port)).await;
+    if port == 0 {
+        for _ in 0..600 {
+            if listener.is_ok() {
+                break;
+            }
+            tokio::time::sleep(std::time::Duration::from_millis(200)).await;
+            listener = TcpListener::bind(("127.0.0.1", port)).await;
+        }
+    }
+    let listener = listener?;
     let port = listener.local_addr()?.port();
     let server = Arc::new(RServer::default());
     *server.port.lock().unwrap() = port;
